@@ -9,6 +9,7 @@ import (
 
 	"github.com/feichai0017/NoKV/kv"
 	"github.com/feichai0017/NoKV/utils"
+	"github.com/feichai0017/NoKV/utils/verifhook"
 	pkgerrors "github.com/pkg/errors"
 )
 
@@ -44,6 +45,7 @@ func (cq *commitQueue) close() bool {
 	if cq == nil {
 		return false
 	}
+	verifhook.Yield("commitQueue.close")
 	if !atomic.CompareAndSwapUint32(&cq.closed, 0, 1) {
 		return false
 	}
@@ -86,6 +88,7 @@ func (cq *commitQueue) tryAcquireItem() bool {
 
 func (cq *commitQueue) acquireItem() bool {
 	for {
+		verifhook.Yield("commitQueue.acquireItem")
 		if cq.tryAcquireItem() {
 			return true
 		}
@@ -106,6 +109,7 @@ func (cq *commitQueue) acquireItem() bool {
 
 func (cq *commitQueue) pop() *commitRequest {
 	for {
+		verifhook.Yield("commitQueue.pop")
 		if cr, ok := cq.ring.Pop(); ok {
 			atomic.AddInt64(&cq.queueLen, -1)
 			cq.releaseSpace()
@@ -153,7 +157,9 @@ func (db *DB) applyThrottle(enable bool) {
 }
 
 func (db *DB) sendToWriteCh(entries []*kv.Entry, waitOnThrottle bool) (*request, error) {
+	verifhook.Yield("sendToWriteCh")
 	for atomic.LoadInt32(&db.blockWrites) == 1 {
+		verifhook.Yield("sendToWriteCh.blocked")
 		if !waitOnThrottle {
 			return nil, utils.ErrBlockedWrites
 		}
@@ -215,6 +221,7 @@ func (db *DB) enqueueCommitRequest(cr *commitRequest) error {
 		return nil
 	}
 	cq := &db.commitQueue
+	verifhook.Yield("enqueueCommitRequest")
 
 	if cq.ring == nil || cq.items == nil || cq.spaces == nil {
 		return utils.ErrBlockedWrites
@@ -350,6 +357,7 @@ func (db *DB) commitWorker() {
 		}
 
 		err := db.vlog.write(requests)
+		verifhook.Crash("commit.vlog")
 
 		if err != nil {
 			db.finishCommitRequests(batch.reqs, err, nil)
@@ -364,8 +372,10 @@ func (db *DB) commitWorker() {
 		}
 
 		failedAt, err := db.applyRequests(batch.requests)
+		verifhook.Crash("commit.applied")
 		if err == nil && db.opt.SyncWrites {
 			err = db.wal.Sync()
+			verifhook.Crash("commit.synced")
 		}
 		if db.writeMetrics != nil {
 			totalDur := max(time.Since(batch.batchStart), 0)
@@ -374,6 +384,7 @@ func (db *DB) commitWorker() {
 				db.writeMetrics.RecordApply(applyDur)
 			}
 		}
+		verifhook.Crash("commit.ack")
 		if err != nil && failedAt >= 0 {
 			perReqErr := make(map[*request]error, len(batch.requests)-failedAt)
 			for i := failedAt; i < len(batch.requests); i++ {
@@ -443,9 +454,11 @@ func (db *DB) applyRequests(reqs []*request) (int, error) {
 		db.Lock()
 		db.updateHead(r.Ptrs)
 		db.Unlock()
+		verifhook.Crash("commit.head")
 		if err := db.writeToLSM(r); err != nil {
 			return i, pkgerrors.Wrap(err, "writeRequests")
 		}
+		verifhook.Crash("commit.lsm")
 	}
 	return -1, nil
 }
